@@ -1,7 +1,7 @@
 """Generates /verif/MANIFEST.json from the check registry (xv manifest)."""
 import json, os
 from .build import VERIF
-from .checks import CHECKS
+from .checks import CHECKS, REVIEWED
 
 ALL = ["C%02d" % i for i in range(1, 21)]
 
@@ -11,7 +11,7 @@ def generate():
         p = json.loads(l); props[p["id"]] = p
     checks = []
     for pid in ALL:
-        if pid not in CHECKS:
+        if pid not in CHECKS or pid not in REVIEWED:
             continue
         s = CHECKS[pid]
         m = s.get("manifest", {})
@@ -29,7 +29,7 @@ def generate():
     na = []
     from .checks import NOT_APPLICABLE
     for pid in ALL:
-        if pid not in CHECKS:
+        if pid not in CHECKS or pid not in REVIEWED:
             na.append({"property_id": pid, "reason": NOT_APPLICABLE.get(pid, "check not built yet in this round (designed in DESIGN.md section 4; not claimed)")})
     man = {
         "version": 1,
